@@ -203,7 +203,7 @@ impl Class {
             Class::MatchTailDropped => "match-binding-a-boxed-tail-that-is-dropped",
             Class::BoxInCondition => "boxed-temporary-consumed-in-an-if-condition",
             Class::AliasOfBox => "alias-of-a-let-bound-box",
-            Class::ReturnedLetBoundBox => "helper-returning-its-let-bound-box",
+            Class::ReturnedLetBoundBox => "block-or-helper-yielding-its-let-bound-box",
             Class::FactoryCallbackScheduledByLetrecTask => "factory-made-callback-scheduled-by-a-letrec-task",
             Class::MatchBoxPayload => "match-projecting-a-boxed-payload-of-a-global-tree",
             Class::AssignGlobalClosure => "closure-assigned-to-a-global-from-dsp",
@@ -407,10 +407,12 @@ impl Inst {
                 format!(
                     "type rec Yl{i} = Yn{i} | Yc{i}(float, Yl{i})\nfn ymk{i}(q){{\n  let a = Yc{i}(q + {k}, Yn{i})\n  a\n}}\nfn ysum{i}(l:Yl{i}) -> float {{\n  match l {{ Yn{i} => 0.0, Yc{i}(h, t) => h + ysum{i}(t) }}\n}}\n"
                 ),
-                if n % 2 == 0 {
-                    format!("  let yl{i} = ymk{i}(now);\n  let r{i} = now;\n")
-                } else {
-                    format!("  let yl{i} = ymk{i}(now);\n  let r{i} = ysum{i}(yl{i});\n")
+                match n % 4 {
+                    0 => format!("  let yl{i} = ymk{i}(now);\n  let r{i} = now;\n"),
+                    1 => format!("  let yl{i} = ymk{i}(now);\n  let r{i} = ysum{i}(yl{i});\n"),
+                    // the same through a block instead of a function
+                    2 => format!("  let yl{i} = {{\n    let a = Yc{i}(now, Yn{i})\n    a\n  }};\n  let r{i} = now;\n"),
+                    _ => format!("  let yl{i} = {{\n    let a = Yc{i}(now, Yn{i})\n    a\n  }};\n  let r{i} = ysum{i}(yl{i});\n"),
                 },
                 format!("r{i}"),
             ),
